@@ -296,7 +296,10 @@ def fuzz(rec, seed, n, tier, shard):
         if shard % 2 == 0:   # even shards start from the 3-file seed corpus, odd shards from an empty one
             for f in os.listdir(os.path.join(here, "csrc", "corpus")):
                 shutil.copy(os.path.join(here, "csrc", "corpus", f), corpus)
-        run = subprocess.run([exe, "-runs=%d" % n, "-seed=%d" % (seed % (2 ** 31 - 1) + 1), "-max_len=384",
+        # -max_total_time only caps a campaign on a loaded machine (executions slow down as inputs grow); the number
+        # of executions actually made is what the evidence reports
+        run = subprocess.run([exe, "-runs=%d" % n, "-max_total_time=%d" % (120 if tier == "quick" else 480),
+                              "-seed=%d" % (seed % (2 ** 31 - 1) + 1), "-max_len=256",
                               "-print_final_stats=1", "-artifact_prefix=%s/" % work, corpus],
                              capture_output=True, text=True, cwd=work)
         out = run.stderr
@@ -362,6 +365,6 @@ def replay_fuzz(rec, args):
 CHECKS = [
     Check("stateful", custom=run_machines, quick=70, thorough=150, quick_shards=8, thorough_shards=16,
           replay=replay_machine),
-    Check("fuzz_heap", custom=fuzz, quick=12000, thorough=250000, quick_shards=8, thorough_shards=16,
+    Check("fuzz_heap", custom=fuzz, quick=12000, thorough=150000, quick_shards=8, thorough_shards=16,
           replay=replay_fuzz),
 ]
